@@ -69,6 +69,10 @@ pub trait SimHooks {
     fn job_preemptible(&self, token: u64) -> bool;
     /// The closure of a preemptible job is about to perform a file operation: let other tasks run first?
     fn job_preempt(&self, token: u64) -> bool;
+    /// How long a preempted closure stays parked (zero = one scheduler round).
+    fn job_preempt_delay(&self, _token: u64) -> Duration {
+        Duration::ZERO
+    }
     /// Brackets one file operation of a preemptible job (`begin` = true before, false after).
     fn job_call(&self, token: u64, begin: bool);
 }
@@ -324,7 +328,12 @@ where
             Ok(call) => {
                 let state_changing = !matches!(call, Call::Now | Call::FileCreatedAt { .. } | Call::Knob { .. } | Call::Opened { .. } | Call::Synced { .. });
                 if state_changing && with(|h| h.job_preempt(token)).unwrap_or(false) {
-                    tokio::task::yield_now().await;
+                    let d = with(|h| h.job_preempt_delay(token)).unwrap_or(Duration::ZERO);
+                    if d.is_zero() {
+                        tokio::task::yield_now().await;
+                    } else {
+                        tokio::time::sleep(d).await;
+                    }
                 }
                 with(|h| h.job_call(token, true));
                 let reply = dispatch(call);
